@@ -31,6 +31,7 @@ func gen(rt *rapid.T) cluster.Program {
 	}
 	p.SlowArtifact = rapid.IntRange(0, 2).Draw(rt, "slowartifact") == 0
 	p.FinalN = rapid.SampledFrom([]int{0, 0, 1, 2, 3}).Draw(rt, "finaln")
+	p.LatePub = rapid.IntRange(0, 4).Draw(rt, "latepub") == 0
 	p.Chain = rapid.SampledFrom([]int{0, 0, 0, 1, 1, 2}).Draw(rt, "chain")
 	if p.Chain > 0 && p.Cfg.Workers > 1 && rapid.Bool().Draw(rt, "scalein") {
 		// fewer operators than before: each inherits the tables of several
@@ -50,6 +51,7 @@ func exec(p cluster.Program, c *hx.Case) error {
 	c.LabelIf(st.FlushSwaps > 0, "state-in-sst-files")
 	c.LabelIf(st.RemainingRecords > 0, "input-remaining-after-savepoint")
 	c.LabelIf(p.SlowArtifact, "checkpoint-completes-during-artifact-assembly")
+	c.LabelIf(st.LatePubs > 0, "savepoint-publication-starts-after-the-next-checkpoint-completed")
 	c.LabelIf(st.Chained > 0, "savepoint-of-a-restored-job")
 	c.LabelIf(st.Chained > 0 && st.DifferentWorkers > 0, "savepoint-after-a-change-of-worker-count")
 	if st.FilesWiped > 0 && st.RemainingRecords > 0 && (st.FlushSwaps > 0 || st.Folded > 0 || st.DifferentWorkers > 0) {
@@ -59,5 +61,5 @@ func exec(p cluster.Program, c *hx.Case) error {
 }
 
 func TestPropSavepoint(t *testing.T) {
-	hx.Run(t, hx.Spec{Prop: "C14", Persist: true, Rule: "the C01 cluster (1..3 workers, DKV memtable 128 B..default so that state sits in SST and WAL files) without failures; HandleCreateSavepoint is called at a drawn inter-node call, in half of the cases right after a checkpoint tick so that it must fold into the pending checkpoint (same id, no second StartCheckpoint); once HandleGetSavepointURI answers, everything is stopped and EVERY file under the working storage and the job's checkpoint directory is deleted; a new job is started with the savepoint URI and the same or another worker count and processes the rest of the input under the exactly-once ordinal oracle; finally a checkpoint of the restored job must hold the per-(key,split) totals; in half of the cases the restored job (whose operators may hold tables inherited from several operators of the first job) is itself saved - right after its deployment or after it processed the rest of the input -, wiped and restored with the same worker count, and that job processes what remains and is checked; non-trivial = files wiped, input remaining after the savepoint, and state in SST files or a folded savepoint or a different worker count"}, gen, exec)
+	hx.Run(t, hx.Spec{Prop: "C14", Persist: true, Rule: "the C01 cluster (1..3 workers, DKV memtable 128 B..default so that state sits in SST and WAL files) without failures; HandleCreateSavepoint is called at a drawn inter-node call, in half of the cases right after a checkpoint tick so that it must fold into the pending checkpoint (same id, no second StartCheckpoint); once HandleGetSavepointURI answers, everything is stopped and EVERY file under the working storage and the job's checkpoint directory is deleted; a new job is started with the savepoint URI and the same or another worker count and processes the rest of the input under the exactly-once ordinal oracle; finally a checkpoint of the restored job must hold the per-(key,split) totals; in a fifth of the cases the goroutine publishing the savepoint's checkpoint is held at its start while the next periodic checkpoint is started (the savepoint must still appear); in half of the cases the restored job (whose operators may hold tables inherited from several operators of the first job) is itself saved - right after its deployment or after it processed the rest of the input -, wiped and restored with the same worker count, and that job processes what remains and is checked; non-trivial = files wiped, input remaining after the savepoint, and state in SST files or a folded savepoint or a different worker count"}, gen, exec)
 }
